@@ -55,7 +55,7 @@ variable {env : Env} (hflt : env.flt = false) (cfg' : FromValue.Cfg) (hap : cfg'
 include hext hflt hap in
 /-- a fixed-length visitor (tuple, struct fields in order, tuple variant) on a printed array, closed by `end_seq` -/
 theorem tupleArr_text (wrap : List TVal → TVal) (ss : List Schema) (f t : Nat) (xs : List JV) (hv : VOK (.arr xs))
-    (ih : ∀ s ∈ ss, ∀ x ∈ xs, Agree1 (deTyped env f (t + 1) s) (FromValue.fromValue cfg' ext' s x) (T ext x))
+    (ih : TupAgree ext (deTyped env f (t + 1)) (FromValue.fromValue cfg' ext') ss xs)
     (rest : Bytes) (pos : Nat) :
     match FromValue.visitArray (FromValue.tupleSeq cfg' ext' ss xs) wrap with
     | .ok tv => closeWith env (endSeq env) ((tupleLoop env (deTyped env f (t + 1)) ss true [] (Telems ext xs ++ 0x5d :: rest) (pos + 1)).map wrap)
@@ -123,7 +123,8 @@ include hext hflt hap in
 theorem structLoop_text (f t : Nat) (fs : List (Bytes × Schema)) (deny : Bool) :
     ∀ (kvs : List (Bytes × JV)),
       (∀ kv ∈ kvs, Spec.Utf8.validUtf8 kv.1 = true ∧ shapeW kv.2 = true ∧
-        ∀ s ∈ fs.map (·.2), Agree1 (deTyped env f t s) (FromValue.fromValue cfg' ext' s kv.2) (T ext kv.2)) →
+        ∀ i nm s, FromValue.nameIndex (fieldNames fs) kv.1 = some i → fs[i]? = some (nm, s) →
+          Agree1 (deTyped env f t s) (FromValue.fromValue cfg' ext' s kv.2) (T ext kv.2)) →
     ∀ (first : Bool) (slots : List (Option TVal)) (n : Nat) (rest : Bytes) (pos : Nat),
       (Tm ext first kvs ++ 0x7d :: rest).length < n →
       match FromValue.structMapLoop (FromValue.fieldDe cfg' ext' fs) deny kvs slots with
@@ -178,10 +179,7 @@ theorem structLoop_text (f t : Nat) (fs : List (Bytes × Schema)) (deny : Bool) 
         | some old => simp [FromValue.fail]
         | none =>
           simp only [Res.bind, parseObjectColon_colon, hfi]
-          have hs_mem : s ∈ fs.map (·.2) := by
-            have := List.mem_of_getElem? hfi
-            exact List.mem_map.mpr ⟨(nm, s), this, rfl⟩
-          have hel := hag s hs_mem (Tmtail ext kvs ++ 0x7d :: rest) (pos + (if first then 0 else 1) + (quote k).length + 1)
+          have hel := hag i nm s hni hfi (Tmtail ext kvs ++ 0x7d :: rest) (pos + (if first then 0 else 1) + (quote k).length + 1)
             (sepOK_mtail ext kvs rest)
           cases hfx : FromValue.fromValue cfg' ext' s x with
           | error e =>
@@ -228,9 +226,8 @@ theorem structLoop_text (f t : Nat) (fs : List (Bytes × Schema)) (deny : Bool) 
 include hext hflt hap in
 /-- structs: `deserialize_struct` from an array or an object against `from_value` -/
 theorem agree_struct (fs : List (Bytes × Schema)) (deny : Bool) (f t : Nat) (v : JV) (hv : VOK v) (hd : DepthOK env t v)
-    (iha : ∀ xs, v = .arr xs → ∀ s ∈ fs.map (·.2), ∀ x ∈ xs,
-      Agree1 (deTyped env f (t + 1) s) (FromValue.fromValue cfg' ext' s x) (T ext x))
-    (iho : ∀ kvs, v = .obj kvs → ∀ s ∈ fs.map (·.2), ∀ kv ∈ kvs,
+    (iha : ∀ xs, v = .arr xs → TupAgree ext (deTyped env f (t + 1)) (FromValue.fromValue cfg' ext') (fs.map (·.2)) xs)
+    (iho : ∀ kvs, v = .obj kvs → ∀ kv ∈ kvs, ∀ i nm s, FromValue.nameIndex (fieldNames fs) kv.1 = some i → fs[i]? = some (nm, s) →
       Agree1 (deTyped env f (t + 1) s) (FromValue.fromValue cfg' ext' s kv.2) (T ext kv.2)) :
     Agree1 (deTyped env (f + 1) t (.struct_ fs deny)) (FromValue.fromValue cfg' ext' (.struct_ fs deny) v) (T ext v) := by
   intro rest pos hs
@@ -254,8 +251,9 @@ theorem agree_struct (fs : List (Bytes × Schema)) (deny : Bool) (f t : Nat) (v 
     | error e => rw [hva] at key; simp only at key ⊢; rw [hde]; exact key
   | obj kvs =>
     have hel : ∀ kv ∈ kvs, Spec.Utf8.validUtf8 kv.1 = true ∧ shapeW kv.2 = true ∧
-        ∀ s ∈ fs.map (·.2), Agree1 (deTyped env f (t + 1) s) (FromValue.fromValue cfg' ext' s kv.2) (T ext kv.2) :=
-      fun kv hx => ⟨(vok_member kvs kv hx hv).1, (vok_member kvs kv hx hv).2.1, fun s hs' => iho kvs rfl s hs' kv hx⟩
+        ∀ i nm s, FromValue.nameIndex (fieldNames fs) kv.1 = some i → fs[i]? = some (nm, s) →
+          Agree1 (deTyped env f (t + 1) s) (FromValue.fromValue cfg' ext' s kv.2) (T ext kv.2) :=
+      fun kv hx => ⟨(vok_member kvs kv hx hv).1, (vok_member kvs kv hx hv).2.1, fun i nm s h1 h2 => iho kvs rfl kv hx i nm s h1 h2⟩
     have hloop := structLoop_text ext hext hflt cfg' hap ext' f (t + 1) fs deny kvs hel true (fs.map fun _ => none)
       ((Tmembers ext kvs ++ 0x7d :: rest).length + 1) rest (pos + 1) (by simp [Tm])
     simp only [Tm, if_true] at hloop
